@@ -113,7 +113,9 @@ func init() {
 		atoiOK := tb.DeclFun("strconv_AtoiOK", []string{"Str"}, "Bool")
 		n := tb.BoundVar("n", "Int")
 		s := tb.App(itoa, "Str", n)
-		tb.AddAxiom("strconv.Itoa-inv", tb.Quant(true, []*Term{n}, tb.And(tb.App(atoiOK, "Bool", s), tb.Eq(tb.App(atoiV, "Int", s), n), tb.Gt(tb.App("s_len", "Int", s), tb.Int(0))), s))
+		c0 := tb.App("s_at", "Int", s, tb.Int(0))
+		tb.AddAxiom("strconv.Itoa-inv", tb.Quant(true, []*Term{n}, tb.And(tb.App(atoiOK, "Bool", s), tb.Eq(tb.App(atoiV, "Int", s), n), tb.Gt(tb.App("s_len", "Int", s), tb.Int(0)),
+			tb.Ite(tb.Ge(n, tb.Int(0)), tb.And(tb.Le(tb.Int(48), c0), tb.Le(c0, tb.Int(57))), tb.Eq(c0, tb.Int(45)))), s))
 		return tb.App(itoa, "Str", fc.term(args[0]))
 	}
 	libModels["strconv.Atoi"] = func(fc *FnCtx, st *State, args []Val) Val {
